@@ -233,18 +233,22 @@ def passes_r10_count(entries):
     return rs in ok and cs in ok
 
 
-def graph_instance(rng, nv, ne, signed, loops=True):
+def graph_instance(rng, nv, ne, signed, loops=True, edges=None):
     """random multi(di)graph with a random spanning forest; returns (M, witness_tokens) where M = M(G,T) (signed: with
     arc reversals applied) with rows in a random order of the forest edges and columns in a random order of the others;
     witness_tokens = '1 <graph> <forest ids> <coforest ids> <rev ids>' in the format of GraphModel.dwitness"""
-    edges = []
-    for e in range(ne):
-        u = rng.below(nv)
-        v = rng.below(nv)
-        if not loops:
-            while v == u and nv > 1:
-                v = rng.below(nv)
-        edges.append((u, v))
+    if edges is None:
+        edges = []
+        for e in range(ne):
+            u = rng.below(nv)
+            v = rng.below(nv)
+            if not loops:
+                while v == u and nv > 1:
+                    v = rng.below(nv)
+            edges.append((u, v))
+    else:
+        edges = list(edges)
+        ne = len(edges)
     rev = [e for e in range(ne) if signed and rng.below(3) == 0]
     arcs = [((v, u) if e in rev else (u, v)) for e, (u, v) in enumerate(edges)]
     # random spanning forest by union-find over a shuffled edge order
@@ -545,3 +549,71 @@ def pivoted_presentation(rng, M, npiv):
     if rng.below(2):
         M = scale(rng, M)
     return M
+
+
+# ---------------------------------------------------------------------------------------------------------------
+# graphs glued from 3-connected pieces along edges (2-sums of rigid components, with series and parallel classes):
+# the shapes on which the SPQR-style typing code of the graphicness test has its case distinctions
+
+def _piece(rng):
+    k = rng.below(6)
+    if k == 0:
+        n = 4
+        E = [(i, j) for i in range(4) for j in range(i + 1, 4)]                     # K4
+    elif k == 1:
+        n = 5
+        E = [(i, j) for i in range(5) for j in range(i + 1, 5)]                     # K5
+    elif k == 2:
+        r = 3 + rng.below(4)
+        n = r + 1
+        E = [(i, (i + 1) % r) for i in range(r)] + [(i, r) for i in range(r)]       # wheel
+    elif k == 3:
+        r = 3 + rng.below(2)
+        n = 2 * r
+        E = [(i, (i + 1) % r) for i in range(r)] + [(r + i, r + (i + 1) % r) for i in range(r)] + [(i, r + i) for i in range(r)]  # prism
+    elif k == 4:
+        n = 6
+        E = [(i, j) for i in range(3) for j in range(3, 6)]                         # K33
+    else:
+        r = 3 + rng.below(3)
+        n = r
+        E = [(i, (i + 1) % r) for i in range(r)]                                    # polygon (series class)
+    return n, E
+
+
+def glued_graph(rng, pieces=None):
+    """edge list of a graph obtained by gluing 2..5 pieces along edges; the glue edge is kept, doubled or deleted"""
+    n, E = _piece(rng)
+    E = list(E)
+    for _ in range(pieces if pieces is not None else 1 + rng.below(4)):
+        if not E:
+            break
+        n2, E2 = _piece(rng)
+        a, b = rng.choice(E)
+        c, d = rng.choice(E2)
+        if rng.below(2):
+            c, d = d, c
+        ren = {}
+        nxt = n
+        for v in range(n2):
+            if v == c:
+                ren[v] = a
+            elif v == d:
+                ren[v] = b
+            else:
+                ren[v] = nxt
+                nxt += 1
+        n = nxt
+        mode = rng.below(3)
+        new = [(ren[u], ren[v]) for (u, v) in E2 if {u, v} != {c, d}]
+        if mode == 0:
+            E.remove((a, b))            # proper 2-sum: the marker edge disappears
+        elif mode == 2:
+            E.append((a, b))            # parallel class
+        E += new
+    if rng.below(3) == 0 and E:         # subdivide an edge (series class)
+        a, b = rng.choice(E)
+        E.remove((a, b))
+        E += [(a, n), (n, b)]
+        n += 1
+    return n, E
